@@ -128,6 +128,12 @@ impl Vtx {
         let year = reader.read_u16::<LittleEndian>()?;
         let decompressed_frames_size = reader.read_u32::<LittleEndian>()?;
 
+        if player_frequency == 0 {
+            return Err(VtxError::InvalidHeader {
+                message: "Invalid player frequency",
+            });
+        }
+
         if decompressed_frames_size % AY_REGISTER_COUNT as u32 != 0 {
             return Err(VtxError::InvalidHeader {
                 message: "Invalid decompressed frames data size",
@@ -144,6 +150,10 @@ impl Vtx {
         while null_terminators_read != 5 {
             let mut strings_partial_buffer = [0u8; READ_STRING_BUFFER_SIZE];
             let bytes_read = reader.read(&mut strings_partial_buffer)?;
+            if bytes_read == 0 {
+                // End of file was reached before all strings were read
+                break;
+            }
             let mut current_buffer_bytes_count = 0;
             while current_buffer_bytes_count < bytes_read {
                 if let Some(pos) = strings_partial_buffer[current_buffer_bytes_count..]
@@ -193,11 +203,19 @@ impl Vtx {
         let author = strings.pop().unwrap();
         let title = strings.pop().unwrap();
 
-        let mut transposed_frame_data = vec![0u8; decompressed_frames_size as usize];
+        // Size from the header is not trusted: memory is taken only for data which was really decoded
+        const DECODE_CHUNK_SIZE: usize = 4096;
+        let mut transposed_frame_data = Vec::new();
+        let mut decode_chunk = [0u8; DECODE_CHUNK_SIZE];
         let mut decoder = Lh5Decoder::new(reader);
-        decoder
-            .fill_buffer(&mut transposed_frame_data)
-            .map_err(|_| VtxError::DecompressFailure)?;
+        while transposed_frame_data.len() < decompressed_frames_size as usize {
+            let chunk_size =
+                (decompressed_frames_size as usize - transposed_frame_data.len()).min(DECODE_CHUNK_SIZE);
+            decoder
+                .fill_buffer(&mut decode_chunk[..chunk_size])
+                .map_err(|_| VtxError::DecompressFailure)?;
+            transposed_frame_data.extend_from_slice(&decode_chunk[..chunk_size]);
+        }
 
         // VTX originally stores pre-transposed data, therefore we need to tarnspose it
         let frames_count = transposed_frame_data.len() / AY_REGISTER_COUNT;
